@@ -69,3 +69,19 @@ reg("C11", "^TestC11", q=(250, 4, 900), t=(2000, 16, 3600), batch=250,
          "rollup by rollup with the contracts' algorithms.",
     note="Trusted: ref.L1InfoLeaf/Frontier/Sparse (mirrors of the Solidity code, tied to the real contracts by the EVM leg); simulated backend.",
     design="§3 C11")
+
+reg("C05", "^TestC05$", q=(300, 4, 900), t=(3000, 16, 3600), batch=300,
+    technique="property-based testing: odometer-exhaustive enumeration of small chains x chunk x pointer scripts + rapid random chains/configs/faults/restarts; oracle = history invariant over the ProcessBlock calls recorded from the real EVMDownloader+EVMDriver on a scripted chain",
+    text="Exploration: the real downloader and driver run on a deterministic scripted chain whose tip/safe/finalized pointers move at "
+         "the node's own polls; the recorded hand-overs must be strictly increasing, carry exactly each block's watched non-removed "
+         "logs in order, never pass an undelivered event block, and cover every event block once the node is idle.",
+    note="Trusted: fakechain (honours range/address filters like a node). Quiescence = script finished and >=3 consecutive tip polls without other RPC; 'missing' is only reported if still missing while idle; a 30 s cap is inconclusive (exit 2). Hash-mismatch retries (mutating chain) belong to C06.",
+    design="§3 C05")
+
+reg("C16", "^TestC16$", q=(80, 4, 900), t=(800, 16, 3600), batch=120,
+    technique="property-based testing: rapid-generated L2 GER insert/remove histories, polling cadences and restarts through the public lastgersync.New (PP) + real reorg detector on a scripted chain; oracle = reference set of live injected GERs",
+    text="Exploration: the public constructor's syncer (real PP downloader, driver, processor, reorg detector) follows a scripted L2 "
+         "chain whose tip advances by 1..10 blocks between polls, with restarts; at quiescence every index query must return a live "
+         "injected GER with index >= X whenever one exists.",
+    note="Trusted: fakechain; the model L1InfoTreeQuerier. Quiescence = cadence script finished and >=3 consecutive tip polls without other RPC; a mismatch is reported only if it persists while idle; 30 s cap = inconclusive. Forked L2 chains are covered at store level by C04 and at driver level by C06.",
+    design="§3 C16")
